@@ -67,3 +67,52 @@ let run (id : string) (ops : string list) (out : out_channel) =
     | _ -> failwith ("lip4 op: " ^ op)) ops
 
 let registered = Registry.register "Lip4" run
+
+(* ---- extraction cross-check inside Coq (see c18.ml): every model call this glue makes for the ops of a
+   sampled case (decode with NextLayerType and the renderer test, serialize), restated as a Gallina
+   term and recomputed by vm_compute, must give the value the extracted code computed here. *)
+let coq_ip4 (l : ip4) =
+  Printf.sprintf "(mkIp4 %s %s %s %s %s %s %s %s %s %s %s %s %s %s %s %s)" (coq_zlist l.i4_contents) (coq_zlist l.i4_payload)
+    (coq_z l.i4_version) (coq_z l.i4_ihl) (coq_z l.i4_tos) (coq_z l.i4_length) (coq_z l.i4_id) (coq_z l.i4_flags) (coq_z l.i4_frag)
+    (coq_z l.i4_ttl) (coq_z l.i4_proto) (coq_z l.i4_csum) (coq_zlist l.i4_src) (coq_zlist l.i4_dst)
+    (coq_list (fun o -> Printf.sprintf "mkOpt %s %s %s" (coq_z o.ot) (coq_z o.ol) (coq_zlist o.od)) l.i4_opts) (coq_zlist l.i4_padding)
+let coq_ounit (o : unit Base.outcome) = coq_outcome coq_unit o
+let coq_junk d = Printf.sprintf "(repeat %s 300%%nat)" (coq_z (z_of_int (if d = 1 then 0xAA else 0)))
+
+let to_coq (idx : int) (ops : string list) (out : out_channel) =
+  let n = ref 0 in
+  let name () = incr n; Printf.sprintf "sample_%d_%d" idx !n in
+  let small h = String.length h <= 300 in
+  (* a decode call together with what the glue reads from the decoded layer *)
+  let ex_dec (call : string) (((l, o), tr) : (ip4 * unit Base.outcome) * bool) =
+    coq_example_named out (name ()) (Printf.sprintf "(let r := %s in (r, ip4_next (fst (fst r)), ip4_render_panics (fst (fst r))))" call)
+      (Printf.sprintf "(%s, %s, %s, %s, %s)" (coq_ip4 l) (coq_ounit o) (coq_bool tr) (coq_z (ip4_next l)) (coq_bool (ip4_render_panics l))) in
+  let ex_ser (l0 : ip4) (p : BinNums.coq_Z list) (f : bool) (c : bool) (d : int) =
+    let r = ip4_serialize l0 p f c (junk_of d) in
+    coq_example_named out (name ()) (Printf.sprintf "ip4_serialize %s %s %s %s %s" (coq_ip4 l0) (coq_zlist p) (coq_bool f) (coq_bool c) (coq_junk d))
+      (coq_pair (coq_outcome coq_zlist) coq_ip4 r); r in
+  Stdlib.List.iter (fun op ->
+    let k = String.index op ':' in
+    let nm = String.sub op 0 k and args = split_on ',' (String.sub op (k + 1) (String.length op - k - 1)) in
+    if !n < 6 then
+    match nm, args with
+    | "dec", [h] when small h ->
+      let b = bytes_of_hex h in ex_dec ("ip4_decode_into ip4_fresh " ^ coq_zlist b) (ip4_decode_into ip4_fresh b)
+    | "dec2", [a; b] when small a && small b ->
+      let a = bytes_of_hex a and b = bytes_of_hex b in
+      ex_dec (Printf.sprintf "ip4_dec2 %s %s" (coq_zlist a) (coq_zlist b)) (ip4_dec2 a b)
+    | ("ser" | "new"), [h; fcd; p] when small h && small p ->
+      let l0 = if nm = "ser" then (let ((l, _), _) = ip4_decode_into ip4_fresh (bytes_of_hex h) in l) else of_spec h in
+      ignore (ex_ser l0 (bytes_of_hex p) (fcd.[0] = '1') (fcd.[1] = '1') (Char.code fcd.[2] - 48))
+    | "rt", [h; p] when small h && small p ->
+      let b = bytes_of_hex h in
+      let ((l, o), _) as r = ip4_decode_into ip4_fresh b in
+      ex_dec ("ip4_decode_into ip4_fresh " ^ coq_zlist b) r;
+      (match o with
+       | Base.Ok _ ->
+         (match ex_ser l (bytes_of_hex p) true true 0 with
+          | (Base.Ok b2, _) -> ex_dec ("ip4_decode_into ip4_fresh " ^ coq_zlist b2) (ip4_decode_into ip4_fresh b2)
+          | _ -> ())
+       | _ -> ())
+    | _ -> ()) ops
+let registered_coq = Registry.register_coq "Lip4" ("From GP Require Import Base Lip4Model.\n", to_coq)
